@@ -7,6 +7,8 @@ class IndentPass(AbstractPass):
         return self.check_external_program('clang-format')
 
     def new(self, test_case, _=None):
+        if self.arg not in ['regular', 'final']:
+            raise UnknownArgumentError(self.__class__.__name__, self.arg)
         return 0
 
     def advance(self, test_case, state):
